@@ -3,128 +3,198 @@
 (* Blocking client operations, their interruption, and the close protocol   *)
 (* of a connection (C09).                                                   *)
 (*                                                                         *)
-(* Part 1 - waits.  Every blocking call of the client API is a sequence of  *)
-(* waits; each wait is a select over a subset of { the caller's context,    *)
-(* the connection's context } plus the awaited event.  Sel[op][pt] is what  *)
-(* the code's select at that wait lists (read from udp/client/conn.go:      *)
-(* doInternal, waitForAcknowledge; tcp/client/conn.go: doInternal;          *)
-(* net/observation/handler.go; net/client/client.go: Ping;                  *)
-(* limitParallelRequests.Do; udp/server/discover.go).  The peer and the     *)
-(* network owe nothing (no fairness): they may stay silent for ever.  Only  *)
-(* the call's own wake-up and the connection's own goroutines are fair.     *)
-(*   ops      do | bwdo (block-wise request) | observe | obscancel | ping |  *)
+(* Part 1 - calls.  A blocking call of the client API passes, in order:     *)
+(*   before   nothing done yet (context may already be done, the connection *)
+(*            may already be closed)                                        *)
+(*   queued   limitParallelRequests.acquireEndpoint: select{granted, ctx}   *)
+(*            - NOT the connection's context: a queued call is woken by a   *)
+(*            close only through the holder of the slot, which returns and  *)
+(*            hands the slot on                                             *)
+(*   nstart   udp/client.acquireOutstandingInteraction (datagram transports,*)
+(*            confirmable requests): semaphore.Acquire(ctx) - same remark   *)
+(*   write    session.WriteMessage: refused on a closed socket or under a   *)
+(*            finished context; the deferred clean-up gives both slots back *)
+(*   sent | acked | midbw   the waits for the peer: select over the awaited *)
+(*            event and the contexts listed in Sel[kind][point] (read from  *)
+(*            udp/client/conn.go: doInternal, waitForAcknowledge;           *)
+(*            tcp/client/conn.go: doInternal; net/observation/handler.go;   *)
+(*            net/client/client.go: Ping; udp/server/discover.go)           *)
+(* Calls: "op" (the operation under test, any kind), "occ" and "w" (plain    *)
+(* requests that hold / wait for the same slots).  The peer and the network *)
+(* owe nothing (no fairness): they may stay silent for ever.  Only the      *)
+(* calls' own steps and the connection's own goroutines are fair.           *)
+(*   kinds    do | bwdo (block-wise request) | observe | obscancel | ping |  *)
 (*            write (confirmable one-way write) | discover                  *)
-(*   points   before (context already done / connection already closed) |   *)
-(*            queued (behind the parallel-request limiter) | sent | acked   *)
-(*            (datagram: ACK seen, response pending) | midbw                *)
-(*   kinds    cancel | deadline | close (local Close, from several          *)
-(*            goroutines) | peerclose (stream transport: the peer closes)   *)
+(*   interruptions  cancel / deadline (the call's context), close (local    *)
+(*            Close from several goroutines), peerclose (stream: EOF)       *)
 (*                                                                         *)
 (* Part 2 - close.  Close() = cancel the connection context, then close the *)
-(* socket behind a once-guard (net.Conn.Close / UDPConn.Close).  The reader *)
-(* loop (session.Run) wakes on the context, the socket or the peer's EOF,   *)
-(* calls Close itself and then shutdown(): pop the on-close list under the  *)
-(* mutex, run what it took, complete the done signal.  A server-side        *)
-(* datagram connection has no reader of its own: the server calls           *)
-(* Close+shutdown through the connection's close function, possibly from    *)
-(* several goroutines (Stop, the inactivity tick, a datagram for a closed    *)
-(* peer) - these are the Shutters.                                          *)
+(* socket behind a once-guard (net.Conn.Close / UDPConn.Close; a server-    *)
+(* side datagram session shares the listener's socket and leaves it open).  *)
+(* The reader loop (session.Run) wakes on the context, the socket or the    *)
+(* peer's EOF, calls Close itself and then shutdown(): pop the on-close     *)
+(* list under the mutex, run what it took, complete the done signal.  A     *)
+(* server-side datagram connection has no reader of its own: the server     *)
+(* calls Close+shutdown through the connection's close function, possibly   *)
+(* from several goroutines (Stop, the inactivity tick, a datagram for a      *)
+(* closed peer) - these are the Shutters.                                   *)
 (***************************************************************************)
 EXTENDS Integers, Sequences, FiniteSets, TLC
 
-CONSTANTS Sel,          \* Sel[op][pt] \subseteq {"ctx", "conn"}
+CONSTANTS Sel,          \* Sel[kind][pt] \subseteq {"ctx", "conn"} for pt \in {"sent", "acked", "midbw"}
+          Calls,        \* subset of {"occ", "op", "w"}
+          Datagram,     \* datagram transport (NSTART slot, acknowledgements) or stream
+          ReleaseOnWriteFail,   \* a refused write gives the NSTART slot back (the code: clean-up deferred before the write)
           Cbs,          \* registered on-close callbacks
           Closers,      \* goroutines calling Close()
           Shutters,     \* goroutines calling Close()+shutdown() (server-side datagram connection), besides the reader
           HasReader,    \* the connection has a reader loop of its own
+          ClosesSocket, \* Close() closes the socket (client connections, stream connections)
           PopAtomic     \* popOnClose takes and clears the list in one critical section (the code)
 
 Ops == {"do", "bwdo", "observe", "obscancel", "ping", "write", "discover"}
 Kinds == {"cancel", "deadline", "close", "peerclose"}
-\* the waits an operation goes through, in order (datagram transport; a stream transport has no "acked")
-Path(o) == CASE o = "do"        -> <<"before", "queued", "sent", "acked">>
-             [] o = "bwdo"      -> <<"before", "queued", "sent", "midbw">>
-             [] o = "observe"   -> <<"before", "queued", "sent">>
-             [] o = "obscancel" -> <<"before", "queued", "sent">>
-             [] o = "ping"      -> <<"before", "sent">>
-             [] o = "write"     -> <<"before", "sent">>
-             [] o = "discover"  -> <<"before", "sent">>
-Points == {"before", "queued", "sent", "acked", "midbw"}
-\* what the code's selects list, after the repair of Ping (net/client/client.go) - every wait lists both
+WaitPts == {"sent", "acked", "midbw"}
+UsesLim(k) == k \in {"do", "bwdo", "observe", "obscancel"}
+UsesNS(k)  == Datagram /\ k \in {"do", "bwdo", "observe", "obscancel", "write"}
+Waits(k)   == Datagram \/ k # "write"            \* a one-way write on a stream returns once written
+\* the points at which a driver can hold an operation, per transport (used to generate the interruption tuples)
+Path(k, dg) == <<"before">> \o (IF UsesLim(k) THEN <<"queued">> ELSE <<>>)
+               \o (IF dg /\ k \in {"do", "bwdo", "observe", "obscancel", "write"} THEN <<"nstart">> ELSE <<>>)
+               \o (IF dg \/ k # "write" THEN <<"sent">> ELSE <<>>)
+               \o (IF dg /\ k = "do" THEN <<"acked">> ELSE <<>>) \o (IF k = "bwdo" THEN <<"midbw">> ELSE <<>>)
+\* what the code's selects list, after the repair of Ping (net/client/client.go) - every wait for the peer lists both
 Both == {"ctx", "conn"}
-CodeSel == [o \in Ops |-> [p \in Points |-> Both]]
+CodeSel == [o \in Ops |-> [p \in WaitPts |-> Both]]
 \* the pinned tree before the repair: Ping waited for the pong and the caller's context only
 PinnedSel == [CodeSel EXCEPT !["ping"]["sent"] = {"ctx"}]
 
 Procs == Closers \cup Shutters \cup (IF HasReader THEN {"reader"} ELSE {})
-VARIABLES op, at, opCtx, ret,          \* the blocked call
+VARIABLES kind, pc, cctx, ret,         \* the calls
+          lim, limq, ns, nsq,          \* endpoint slot of the limiter (limit 1) and NSTART slot (1): holder / FIFO of waiters
           closeReq, eof,               \* interruptions of the connection
           connCtx, sock, sockCloses,   \* connection context, socket, executions of the real socket close
           list, taken, ran, done, doneCompletions,
-          pc
-vars == <<op, at, opCtx, ret, closeReq, eof, connCtx, sock, sockCloses, list, taken, ran, done, doneCompletions, pc>>
+          ppc
+cvars == <<kind, pc, cctx, ret, lim, limq, ns, nsq>>
+xvars == <<closeReq, eof>>
+pvars == <<connCtx, sock, sockCloses, list, taken, ran, done, doneCompletions, ppc>>
+vars == <<cvars, xvars, pvars>>
 
-Init == /\ op \in Ops /\ at = 1 /\ opCtx = FALSE /\ ret = "none"
+Init == /\ kind \in {f \in [Calls -> Ops] : \A c \in Calls : c # "op" => f[c] = "do"}
+        /\ pc = [c \in Calls |-> "idle"] /\ cctx = [c \in Calls |-> FALSE] /\ ret = [c \in Calls |-> "none"]
+        /\ lim = "free" /\ limq = <<>> /\ ns = "free" /\ nsq = <<>>
         /\ closeReq = FALSE /\ eof = FALSE /\ connCtx = FALSE /\ sock = "open" /\ sockCloses = 0
         /\ list = Cbs /\ taken = [p \in Procs |-> {}] /\ ran = [c \in Cbs |-> 0] /\ done = FALSE /\ doneCompletions = 0
-        /\ pc = [p \in Procs |-> "idle"]
+        /\ ppc = [p \in Procs |-> "idle"]
 
-Interrupted == opCtx \/ closeReq \/ eof
-(* ------------------------------ the blocked call -------------------------- *)
-\* the environment lets the call get one wait further (the peer answered something) - never obliged to
-Advance == /\ ret = "none" /\ ~Interrupted /\ at < Len(Path(op)) /\ at' = at + 1
-           /\ UNCHANGED <<op, opCtx, ret, closeReq, eof, connCtx, sock, sockCloses, list, taken, ran, done, doneCompletions, pc>>
-Interrupt(k) == /\ ~Interrupted
-                /\ CASE k \in {"cancel", "deadline"} -> opCtx' = TRUE /\ UNCHANGED <<closeReq, eof>>
-                     [] k = "close"                 -> closeReq' = TRUE /\ UNCHANGED <<opCtx, eof>>
-                     [] k = "peerclose"             -> HasReader /\ eof' = TRUE /\ UNCHANGED <<opCtx, closeReq>>
-                /\ UNCHANGED <<op, at, ret, connCtx, sock, sockCloses, list, taken, ran, done, doneCompletions, pc>>
-\* the call's own step: its select sees a done context it listens to
-Woken == \/ opCtx /\ "ctx" \in Sel[op][Path(op)[at]]
-         \/ connCtx /\ "conn" \in Sel[op][Path(op)[at]]
-Return == /\ ret = "none" /\ Woken /\ ret' = "err"
-          /\ UNCHANGED <<op, at, opCtx, closeReq, eof, connCtx, sock, sockCloses, list, taken, ran, done, doneCompletions, pc>>
+Remove(q, x) == SelectSeq(q, LAMBDA y : y # x)
+\* give a slot back: hand it to the head waiter (FIFO) or free it
+RelHolder(h, q, c) == IF h # c THEN h ELSE IF q = <<>> THEN "free" ELSE Head(q)
+RelQueue(h, q, c)  == IF h # c THEN Remove(q, c) ELSE IF q = <<>> THEN q ELSE Tail(q)
+\* c leaves for good with result r, giving back what it holds (the NSTART slot only if relNS)
+Leave(c, r, relNS) ==
+  /\ pc' = [pc EXCEPT ![c] = "done"] /\ ret' = [ret EXCEPT ![c] = r]
+  /\ lim' = RelHolder(lim, limq, c) /\ limq' = RelQueue(lim, limq, c)
+  /\ IF relNS THEN ns' = RelHolder(ns, nsq, c) /\ nsq' = RelQueue(ns, nsq, c) ELSE UNCHANGED <<ns, nsq>>
+  /\ UNCHANGED <<kind, cctx>>
+At(c, p) == pc' = [pc EXCEPT ![c] = p]
+
+(* ------------------------------- environment ----------------------------- *)
+Invoke(c) == pc[c] = "idle" /\ At(c, "before") /\ UNCHANGED <<kind, cctx, ret, lim, limq, ns, nsq>> /\ UNCHANGED <<xvars, pvars>>
+CtxDone(c) == ~cctx[c] /\ pc[c] # "done" /\ cctx' = [cctx EXCEPT ![c] = TRUE]
+              /\ UNCHANGED <<kind, pc, ret, lim, limq, ns, nsq>> /\ UNCHANGED <<xvars, pvars>>
+LocalClose == ~closeReq /\ closeReq' = TRUE /\ UNCHANGED <<eof, cvars, pvars>>
+PeerClose == HasReader /\ ~Datagram /\ ~eof /\ eof' = TRUE /\ UNCHANGED <<closeReq, cvars, pvars>>
+\* the peer gets the call one wait further, or answers it - never obliged to
+PeerAck(c) == Datagram /\ pc[c] = "sent" /\ kind[c] = "do" /\ At(c, "acked")
+              /\ UNCHANGED <<kind, cctx, ret, lim, limq, ns, nsq>> /\ UNCHANGED <<xvars, pvars>>
+PeerContinue(c) == pc[c] = "sent" /\ kind[c] = "bwdo" /\ At(c, "midbw")
+              /\ UNCHANGED <<kind, cctx, ret, lim, limq, ns, nsq>> /\ UNCHANGED <<xvars, pvars>>
+PeerAnswer(c) == pc[c] \in WaitPts /\ kind[c] # "discover" /\ Leave(c, "ok", TRUE) /\ UNCHANGED <<xvars, pvars>>
+Env == \/ \E c \in Calls : Invoke(c) \/ CtxDone(c) \/ PeerAck(c) \/ PeerContinue(c) \/ PeerAnswer(c)
+       \/ LocalClose \/ PeerClose
+
+(* ---------------------------- the calls' own steps ------------------------ *)
+Enter(c) == /\ pc[c] = "before"
+            /\ IF UsesLim(kind[c])
+               THEN IF lim = "free" THEN lim' = c /\ At(c, "haveLim") /\ UNCHANGED limq
+                    ELSE limq' = Append(limq, c) /\ At(c, "queued") /\ UNCHANGED lim
+               ELSE At(c, "haveLim") /\ UNCHANGED <<lim, limq>>
+            /\ UNCHANGED <<kind, cctx, ret, ns, nsq>>
+\* select{granted, ctx} of acquireEndpoint - both arms may be ready
+QueuedGranted(c) == pc[c] = "queued" /\ lim = c /\ At(c, "haveLim") /\ UNCHANGED <<kind, cctx, ret, lim, limq, ns, nsq>>
+QueuedCtx(c) == pc[c] = "queued" /\ cctx[c] /\ Leave(c, "err", TRUE)
+\* limit.Acquire / acquireOutstandingInteraction refuse a finished context at once
+TakeNS(c) == /\ pc[c] = "haveLim"
+             /\ IF cctx[c] /\ (UsesLim(kind[c]) \/ UsesNS(kind[c])) THEN Leave(c, "err", TRUE)
+                ELSE /\ IF UsesNS(kind[c])
+                        THEN IF ns = "free" THEN ns' = c /\ At(c, "write") /\ UNCHANGED nsq
+                             ELSE nsq' = Append(nsq, c) /\ At(c, "nstart") /\ UNCHANGED ns
+                        ELSE At(c, "write") /\ UNCHANGED <<ns, nsq>>
+                     /\ UNCHANGED <<kind, cctx, ret, lim, limq>>
+NSGranted(c) == pc[c] = "nstart" /\ ns = c /\ At(c, "write") /\ UNCHANGED <<kind, cctx, ret, lim, limq, ns, nsq>>
+NSCtx(c) == pc[c] = "nstart" /\ cctx[c] /\ Leave(c, "err", TRUE)
+\* the write: refused on a closed socket, under a finished context (a ping is written under the connection's context)
+WriteRefused(c) == sock = "closed" \/ cctx[c] \/ (connCtx /\ kind[c] = "ping")
+Write(c) == /\ pc[c] = "write"
+            /\ IF WriteRefused(c) THEN Leave(c, "err", ReleaseOnWriteFail)
+               ELSE IF ~Waits(kind[c]) THEN Leave(c, "ok", TRUE)
+               ELSE At(c, "sent") /\ UNCHANGED <<kind, cctx, ret, lim, limq, ns, nsq>>
+\* the select of a wait for the peer sees a done context it listens to
+Woken(c) == /\ pc[c] \in WaitPts
+            /\ \/ cctx[c] /\ "ctx" \in Sel[kind[c]][pc[c]]
+               \/ connCtx /\ "conn" \in Sel[kind[c]][pc[c]]
+            /\ Leave(c, IF kind[c] = "discover" /\ cctx[c] THEN "ok" ELSE "err", TRUE)
+CallStep(c) == (Enter(c) \/ QueuedGranted(c) \/ QueuedCtx(c) \/ TakeNS(c) \/ NSGranted(c) \/ NSCtx(c) \/ Write(c) \/ Woken(c))
+               /\ UNCHANGED <<xvars, pvars>>
 
 (* ------------------------------ the close protocol ------------------------ *)
-Go(p, to) == pc' = [pc EXCEPT ![p] = to]
-OpU == UNCHANGED <<op, at, opCtx, ret, closeReq, eof>>
+Go(p, to) == ppc' = [ppc EXCEPT ![p] = to]
 \* Close(), two critical sections
-StartClose(p) == /\ pc[p] = "idle"
+StartClose(p) == /\ ppc[p] = "idle"
                  /\ IF p = "reader" THEN (connCtx \/ sock = "closed" \/ eof) ELSE closeReq
                  /\ connCtx' = TRUE /\ Go(p, "cancelled")
-                 /\ OpU /\ UNCHANGED <<sock, sockCloses, list, taken, ran, done, doneCompletions>>
-CloseSock(p) == /\ pc[p] = "cancelled"
-                /\ IF sock = "open" THEN sock' = "closed" /\ sockCloses' = sockCloses + 1 ELSE UNCHANGED <<sock, sockCloses>>
+                 /\ UNCHANGED <<sock, sockCloses, list, taken, ran, done, doneCompletions>>
+CloseSock(p) == /\ ppc[p] = "cancelled"
+                /\ IF ClosesSocket /\ sock = "open" THEN sock' = "closed" /\ sockCloses' = sockCloses + 1 ELSE UNCHANGED <<sock, sockCloses>>
                 /\ Go(p, IF p \in Closers THEN "end" ELSE "closed")
-                /\ OpU /\ UNCHANGED <<connCtx, list, taken, ran, done, doneCompletions>>
+                /\ UNCHANGED <<connCtx, list, taken, ran, done, doneCompletions>>
 \* shutdown()
-Pop(p) == /\ pc[p] = "closed"
+Pop(p) == /\ ppc[p] = "closed"
           /\ taken' = [taken EXCEPT ![p] = list]
           /\ IF PopAtomic THEN list' = {} /\ Go(p, "run") ELSE UNCHANGED list /\ Go(p, "clear")
-          /\ OpU /\ UNCHANGED <<connCtx, sock, sockCloses, ran, done, doneCompletions>>
-Clear(p) == /\ pc[p] = "clear" /\ list' = {} /\ Go(p, "run")
-            /\ OpU /\ UNCHANGED <<connCtx, sock, sockCloses, taken, ran, done, doneCompletions>>
-RunCb(p) == /\ pc[p] = "run" /\ taken[p] # {}
+          /\ UNCHANGED <<connCtx, sock, sockCloses, ran, done, doneCompletions>>
+Clear(p) == /\ ppc[p] = "clear" /\ list' = {} /\ Go(p, "run")
+            /\ UNCHANGED <<connCtx, sock, sockCloses, taken, ran, done, doneCompletions>>
+RunCb(p) == /\ ppc[p] = "run" /\ taken[p] # {}
             /\ \E c \in taken[p] : ran' = [ran EXCEPT ![c] = @ + 1] /\ taken' = [taken EXCEPT ![p] = @ \ {c}]
-            /\ OpU /\ UNCHANGED <<connCtx, sock, sockCloses, list, done, doneCompletions, pc>>
-Complete(p) == /\ pc[p] = "run" /\ taken[p] = {}
+            /\ UNCHANGED <<connCtx, sock, sockCloses, list, done, doneCompletions, ppc>>
+Complete(p) == /\ ppc[p] = "run" /\ taken[p] = {}
                /\ done' = TRUE /\ doneCompletions' = doneCompletions + 1 /\ Go(p, "end")
-               /\ OpU /\ UNCHANGED <<connCtx, sock, sockCloses, list, taken, ran>>
-ProcStep(p) == StartClose(p) \/ CloseSock(p) \/ Pop(p) \/ Clear(p) \/ RunCb(p) \/ Complete(p)
+               /\ UNCHANGED <<connCtx, sock, sockCloses, list, taken, ran>>
+ProcStep(p) == (StartClose(p) \/ CloseSock(p) \/ Pop(p) \/ Clear(p) \/ RunCb(p) \/ Complete(p)) /\ UNCHANGED <<cvars, xvars>>
 
-Next == Advance \/ (\E k \in Kinds : Interrupt(k)) \/ Return \/ (\E p \in Procs : ProcStep(p))
-Spec == Init /\ [][Next]_vars /\ WF_vars(Return) /\ \A p \in Procs : WF_vars(ProcStep(p))
+Next == Env \/ (\E c \in Calls : CallStep(c)) \/ (\E p \in Procs : ProcStep(p))
+Spec == Init /\ [][Next]_vars /\ (\A c \in Calls : WF_vars(CallStep(c))) /\ (\A p \in Procs : WF_vars(ProcStep(p)))
 
 (* ---------------------------------- properties ---------------------------- *)
 \* "returns within a bounded delay once its context is cancelled or expires or the connection is closed by either side"
-Ends == Interrupted ~> (ret # "none")
-NoFalseReturn == (ret # "none") => Interrupted
+Interrupted(c) == pc[c] # "idle" /\ (cctx[c] \/ closeReq \/ eof)
+Ends == \A c \in Calls : Interrupted(c) ~> (pc[c] = "done")
+NoFalseError == \A c \in Calls : (ret[c] = "err") => (cctx[c] \/ closeReq \/ eof)
+\* slots are owned by at most one call and never by one that has returned
+SlotsSane == /\ lim \in Calls => pc[lim] \notin {"idle", "done"}
+             /\ (ns \in Calls /\ ReleaseOnWriteFail) => pc[ns] \notin {"idle", "done"}
 \* "runs every registered on-close callback exactly once", "completes the connection's done signal"
 OnceEach == \A c \in Cbs : ran[c] <= 1
 SockOnce == sockCloses <= 1
 \* a stream connection completes its done signal by closing a channel: twice would panic
 DoneOnceIfReaderOnly == (Shutters = {}) => doneCompletions <= 1
 CloseCompletes == (closeReq \/ eof) ~> (done /\ \A c \in Cbs : ran[c] = 1)
-\* every (operation, point, kind) at which an interruption can strike
-Tuples == UNION {{[op |-> o, pt |-> Path(o)[j], kind |-> k] : j \in 1..Len(Path(o)), k \in Kinds} : o \in Ops}
+\* every (operation, point, kind) at which an interruption can strike, per transport
+KindsFor(dg) == IF dg THEN Kinds \ {"peerclose"} ELSE Kinds      \* a datagram peer cannot close
+OpsFor(dg) == IF dg THEN Ops ELSE Ops \ {"discover"}              \* discovery is a datagram-server operation
+TuplesFor(dg) == UNION {{[op |-> o, pt |-> Path(o, dg)[j], kind |-> k, datagram |-> dg] : j \in 1..Len(Path(o, dg)), k \in KindsFor(dg)} : o \in OpsFor(dg)}
+Tuples == TuplesFor(TRUE) \cup TuplesFor(FALSE)
 =============================================================================
